@@ -202,6 +202,8 @@ PiecesRec(s, k, out) ==
      ELSE PiecesRec(s, k + 1, out)
 \* <<day, sec, utoff, isdst, abbr>> : observation from that instant until the next piece
 Pieces == PiecesRec(Merged, 1, <<<<WinLo[1], 0, def[1], def[2], def[3]>>>>)
+\* the same without the writezone merge: every generated transition takes effect at its own instant
+PiecesUnmerged == PiecesRec(All, 1, <<<<WinLo[1], 0, def[1], def[2], def[3]>>>>)
 
 ----------------------------------------------------------------------------
 \* Model-level sanity, checked in every state of every zone's walk
@@ -241,8 +243,12 @@ NoVerdict == [ok |-> TRUE, at |-> -1, spec |-> <<>>, obs |-> <<>>]
 Conforms == phase = "done" =>
    LET name == ZonesSeq[z].name
        pj == PiecesJ
+       iv == IF Has(Obs.impl, name) THEN Verdict(Obs.impl, name, pj) ELSE NoVerdict
    IN PrintT(ToJson([zone |-> name, pieces |-> pj, nstates |-> TLCGet("level"),
-                     impl |-> (IF Has(Obs.impl, name) THEN Verdict(Obs.impl, name, pj) ELSE NoVerdict),
+                     impl |-> iv,
+                     \* a rejected implementation trace that equals the semantics *without* the merge step differs from zic
+                     \* exactly by not folding transitions (classification only; the verdict is `impl`)
+                     implUnmerged |-> (IF iv.ok THEN TRUE ELSE AsTuple(Obs.impl[name]) = ToJ(PiecesUnmerged)),
                      zic  |-> (IF Has(Obs.zic, name) THEN Verdict(Obs.zic, name, pj) ELSE NoVerdict)]))
 \* Export only (no observations): print the pieces of every zone
 PrintDone == phase = "done" => PrintT(ToJson([zone |-> ZonesSeq[z].name, pieces |-> PiecesJ]))
